@@ -206,9 +206,9 @@ Record finv (cf : config) (t : table) : Prop := {
   fi_app : forall c ru, In ru (rules_of (t_app t) c) -> felix_line (r_line ru) = true
 }.
 
-Lemma apply_cmds_benign : forall cf t cs, finv cf t -> apply_cmds cf t = Some cs -> Forall (benign_for cf) cs.
+Lemma apply_cmds_legacy_benign : forall cf t cs, finv cf t -> apply_cmds_legacy cf t = Some cs -> Forall (benign_for cf) cs.
 Proof.
-  intros cf t cs HI Ha. unfold apply_cmds in Ha.
+  intros cf t cs HI Ha. unfold apply_cmds_legacy in Ha.
   destruct (pass3_all cf t (t_dirtyIA t)) as [p3|] eqn:E3; try discriminate. inversion Ha; subst. clear Ha.
   apply Forall_forall. intros cm Hin. unfold benign_for.
   rewrite !in_app_iff in Hin. destruct Hin as [Hin|[Hin|[Hin|Hin]]].
@@ -222,4 +222,36 @@ Proof.
     + destruct Hb as [Hb|Hb]; rewrite Hb; simpl; eapply fi_ins; eauto.
     + rewrite Hb; simpl; eapply fi_app; eauto.
   - apply in_flat_map in Hin. destruct Hin as [c [Hc Hin]]. apply pass4_names in Hin. left. rewrite Hin. apply HI; auto.
+Qed.
+
+Lemma apply_cmds_nft_benign : forall cf t cs, finv cf t -> apply_cmds_nft cf t = Some cs -> Forall (benign_for cf) cs.
+Proof.
+  intros cf t cs HI Ha. unfold apply_cmds_nft in Ha.
+  destruct (pass3_all cf t (t_dirtyIA t)) as [p3|] eqn:E3; try discriminate. inversion Ha; subst. clear Ha.
+  assert (N1 : forall c cm, In cm (pass1n t c) -> fst cm = c).
+  { unfold pass1n. intros c cm H. destruct (nft_skip t c); simpl in H; intuition; subst; auto. }
+  assert (N2 : forall c cm, In cm (pass2n t c) -> fst cm = c).
+  { unfold pass2n. intros c cm H. destruct (nft_skip t c); [contradiction|]. destruct (desired t c); [|contradiction].
+    apply in_map_iff in H. destruct H as [d [<- _]]. reflexivity. }
+  assert (N4 : forall c cm, In cm (pass4n t c) -> fst cm = c).
+  { unfold pass4n. intros c cm H. destruct (desired t c); simpl in H; intuition; subst; auto. }
+  apply Forall_forall. intros cm Hin. unfold benign_for.
+  rewrite !in_app_iff in Hin. destruct Hin as [Hin|[Hin|[Hin|Hin]]].
+  - apply in_flat_map in Hin. destruct Hin as [c [Hc Hin]]. apply N1 in Hin. left. rewrite Hin. apply HI; auto.
+  - apply in_flat_map in Hin. destruct Hin as [c [Hc Hin]]. apply N2 in Hin. left. rewrite Hin. apply HI; auto.
+  - destruct (pass3_all_spec _ _ _ _ _ E3 Hin) as [c [r' [Hc [Hp Hin']]]].
+    destruct (pass3_spec _ _ _ _ _ Hp Hin') as [Hn Hk].
+    destruct (owned cf (fst cm)) eqn:Eo; auto. right. rewrite Hn in Eo.
+    destruct Hk as [[fr [j [ol [Hf [Hnth Hb]]]]]|[[ru [Hru Hb]]|[ru [Hru Hb]]]].
+    + rewrite Hb. destruct ol as [l|]; simpl; auto. eapply fi_full; eauto. eapply nth_error_In; eauto.
+    + destruct Hb as [Hb|Hb]; rewrite Hb; simpl; eapply fi_ins; eauto.
+    + rewrite Hb; simpl; eapply fi_app; eauto.
+  - apply in_flat_map in Hin. destruct Hin as [c [Hc Hin]]. apply N4 in Hin. left. rewrite Hin. apply HI; auto.
+Qed.
+
+Lemma apply_cmds_benign : forall cf t cs, finv cf t -> apply_cmds cf t = Some cs -> Forall (benign_for cf) cs.
+Proof.
+  intros cf t cs HI Ha. unfold apply_cmds in Ha. destruct (cf_nft cf).
+  - eapply apply_cmds_nft_benign; eauto.
+  - eapply apply_cmds_legacy_benign; eauto.
 Qed.
